@@ -167,6 +167,7 @@ func (e *Exec) callStatic(fr *frame, fn *ssa.Function, args []Val, reach Term, s
 			res = append(res, v)
 		}
 		e.trusted["call of "+fullKey(fn)+" abstracted to an uninterpreted function of its arguments (its contract says it assigns nothing)"] = true
+		e.pureCallFacts(ct, fn, args, res, st.cells)
 		return res, reach
 	}
 	if ct != nil && !ct.Inline && !e.inlines[fullKey(fn)] {
@@ -247,6 +248,37 @@ func (e *Exec) callStatic(fr *frame, fn *ssa.Function, args []Val, reach Term, s
 }
 
 func (e *Exec) selfInline(fn *ssa.Function) bool { return false }
+
+// pureCallFacts: the postconditions of the contract hold for the uninterpreted application that
+// stands for a pure call (added as definitional facts of that application)
+func (e *Exec) pureCallFacts(ct *Contract, fn *ssa.Function, args []Val, res []Val, cells map[string]Term) {
+	if ct == nil || len(ct.Ensures) == 0 || len(res) == 0 || len(res[0].L) == 0 || !e.pureFacts[fullKey(fn)] {
+		return
+	}
+	c := e.c
+	key := res[0].L[0].S
+	if c.pureFactsDone == nil {
+		c.pureFactsDone = map[string]bool{}
+	}
+	if c.pureFactsDone[key] {
+		return
+	}
+	c.pureFactsDone[key] = true
+	env := &SpecEnv{e: e, pkg: fn.Pkg.Pkg, params: paramEnv(fn, args), cells: cells, old: cells, result: res}
+	var pre []Term
+	for _, r := range ct.Requires {
+		pre = append(pre, e.evalSpecBool(r, env, nil, nil))
+	}
+	name := "call_" + sanitize(fullKey(fn))
+	for _, en := range ct.Ensures {
+		g := e.evalSpecBool(en, env, nil, nil)
+		for _, t := range res[0].L {
+			c.symOfConst[t.S] = name
+		}
+		c.axiom(key, name, c.implies(c.and(pre...), g))
+		c.axioms[len(c.axioms)-1].PerApp = true
+	}
+}
 
 // paramEnv binds callee parameter names to argument values
 func paramEnv(fn *ssa.Function, args []Val) map[string]Val {
@@ -702,6 +734,26 @@ func (e *Exec) afterCallAnchors(fr *frame, fn *ssa.Function, x *ssa.Call, reach 
 			v = env.typed(v, old.Typ)
 			// ghost variables live in cells so that they merge at joins
 			st.cells["l:ghost."+gu.Var] = v.T()
+		}
+	}
+	for _, ct := range fr.spec.Cuts {
+		if ct.Anchor == key {
+			// cut point: prove the formula, forget everything about the locations the unit may
+			// assign, and continue from the formula alone
+			env := fr.specEnv(st)
+			env.result = res
+			g := e.evalSpecBool(ct.E, env, st, nil)
+			label := ct.E.Label
+			if label == "" {
+				label = key
+			}
+			e.oblige("cut", label, reach, g, x.Pos())
+			for _, a := range fr.spec.Assigns {
+				e.havocLoc(a, fr.specEnv(st), st.cells, fn)
+			}
+			env2 := fr.specEnv(st)
+			env2.result = res
+			e.c.assume(e.c.implies(reach, e.evalSpecBool(ct.E, env2, st, nil)), "cut point")
 		}
 	}
 	for _, as := range fr.spec.Asserts {
